@@ -273,10 +273,17 @@ func runWorker(b *build, pkg string, sp spec, wdir string) (*result, error) {
 	// race reports of this worker
 	if sp.Race {
 		files, _ := filepath.Glob(filepath.Join(wdir, "race.*"))
+		if os.Getenv("VF_VERBOSE") != "" {
+			fmt.Fprintf(os.Stderr, "  race logs in %s: %v (worker exit: %v)\n", wdir, files, werr)
+		}
 		idx := 0
 		for _, f := range files {
 			txt, _ := os.ReadFile(f)
 			for _, rp := range parseRaceReports(string(txt)) {
+				if rp.skip {
+					idx++
+					continue
+				}
 				v := &violation{Key: "C15/race/" + rp.key, Scenario: sp.Scenario, Message: rp.text, Count: 1}
 				// the idx-th report belongs to the execution whose RaceErrors() increment covers it
 				seen := 0
@@ -391,6 +398,16 @@ func runCheck(id, tier string) int {
 	var capped []string
 	var samples []any
 	var notes []string
+	vioRun := map[string]int{}
+	for oi, o := range outcomes {
+		for _, res := range o.results {
+			for _, v := range res.Violations {
+				if _, ok := vioRun[v.Key]; !ok {
+					vioRun[v.Key] = oi
+				}
+			}
+		}
+	}
 	for _, res := range all {
 		execs += res.Owned
 		if res.Owned == 0 {
@@ -476,6 +493,53 @@ func runCheck(id, tier string) int {
 		exit = 1
 		if nViol > maxPrinted {
 			continue
+		}
+		// A schedule-dependent violation is believed only if its recorded schedule fails again,
+		// twice, in fresh processes (the same schedule must fail every time).
+		if len(v.Choices) > 0 && v.Case != "" && os.Getenv("VF_NO_REPLAY") == "" {
+			r := outcomes[vioRun[k]].run
+			b := bn
+			if r.Race {
+				b = br
+			}
+			// Race reports are the exception: the detector's view of one execution is not fully
+			// deterministic (in race builds sync.Pool drops items at random, and the pools inside
+			// fmt / net/http add or remove happens-before edges between threads accordingly), so a
+			// real race can go unreported in a given replay. A race report is concrete evidence by
+			// itself; it is replayed up to six times and the first reproduction is enough.
+			isRace := strings.Contains(k, "/race/")
+			attempts, need := 2, 2
+			if isRace {
+				attempts, need = 6, 1
+			}
+			got := 0
+			for attempt := 1; attempt <= attempts && got < need; attempt++ {
+				wdir := filepath.Join(scratch, fmt.Sprintf("replay_%d_%d", nViol, attempt))
+				os.MkdirAll(wdir, 0o755)
+				f := r.F
+				if f == 0 {
+					f = 1
+				}
+				sp := spec{Scenario: r.Scenario, Params: r.Params, Tier: tier, K: r.K, E: r.E, F: f, Horizon: r.Horizon, NShards: 1, Replay: v.Choices, ReplayCase: v.Case, Trace: true, Race: r.Race}
+				res, err := runWorker(b, r.Pkg, sp, wdir)
+				reproduced := false
+				if err == nil {
+					for _, rv := range res.Violations {
+						if rv.Key == v.Key {
+							reproduced = true
+						}
+					}
+				}
+				if reproduced {
+					got++
+				} else if !isRace {
+					fmt.Fprintf(os.Stderr, "MACHINERY-ERROR: violation %s was not reproduced when its recorded schedule was replayed (attempt %d, err=%v): not reported as a verdict\n", v.Key, attempt, err)
+					return 2
+				}
+			}
+			if isRace && got == 0 {
+				v.Message += "\n(note: the report did not re-appear in 6 replays of the recorded schedule; see DESIGN.md 10.2 on sync.Pool randomisation in race builds)"
+			}
 		}
 		path := writeReplay(id, tier, v, runs)
 		fmt.Printf("VIOLATION property=%s replay=%s\n", id, path)
@@ -663,6 +727,9 @@ func runReplay(path string) int {
 			fmt.Printf("REPRODUCED %s\n  %s\n", v.Key, indent(v.Message))
 			return 1
 		}
+	}
+	for _, v := range res.Violations {
+		fmt.Println("  (observed instead:", v.Key+")")
 	}
 	fmt.Println("not reproduced: the recorded schedule/case no longer violates", rf.Violation.Key)
 	return 0
